@@ -201,6 +201,7 @@ def check(rep, an, tier):
                         rep.check("R-NOFLOW", f"derived field {ev.d['attr']} independent of re-registrable state", not stale, where=ev.loc,
                                   construct=ev.text(), entry=entry, config=label, msg=f"depends on {sorted(stale)}")
             R.rule_purity(rep, res, entry)
+            rebinds(rep, res, entry, label)
     # register_bounds: each bound iff given
     for lbg, ubg in ((True, True), (True, False), (False, True)):
         kw = dict(lb=arr("lb", S("SRC"), U_INT) if lbg else none(), ub=arr("ub", S("SRC"), U_INT) if ubg else none())
@@ -216,6 +217,7 @@ def check(rep, an, tier):
             v = ev.d["val"].flat()
             rep.check("R-FLOW", f"self.{ev.d['attr']} ← the given {ev.d['attr']}", ev.d["attr"] in v.data, where=ev.loc, construct=ev.text(),
                       entry=entry, config=label)
+        rebinds(rep, res, entry, label)
     # ------------------------------------------------------------ fits: write only in internal mode
     bsv = lsq_inputs(bs=1)["batch_size"]
     fit_kws = {
@@ -283,3 +285,14 @@ def unseeded(rep, res, entry):
                      config=res.config,
                      msg=f"the answer depends on an unseeded generator created at {', '.join(e.split('@')[1] for e in ent)}: repeating the query (same "
                          f"arguments, same registered state) gives a different answer")
+
+
+def rebinds(rep, res, entry, label):
+    """a registration REPLACES the registered value (rebinds the attribute): writing the new numbers element-wise into the previously
+    registered array changes an array that the caller, or another estimator built from it, may still hold"""
+    for ev in res.events("self_store"):
+        if ev.d.get("how") == "item":
+            rep.violated("R-PURITY", "registration rebinds the field instead of writing into the old array", where=ev.loc, construct=ev.text(),
+                         entry=entry, config=label,
+                         msg=f"self.{ev.d['attr']}[…] = … writes into the array registered earlier: np.asarray / ensure_value keep the caller's "
+                             f"ndarray without copying, so the caller's array (and every estimator sharing it) is overwritten")
